@@ -269,7 +269,11 @@ def run_sharded(binary, script_lines, workdir, tag, nshards=NCPU, timeout=1500, 
             f.write("\n".join(part) + ("\n" if part else ""))
         e = dict(os.environ)
         if env:
-            e.update(env)
+            for k, v in env.items():
+                if v is None:
+                    e.pop(k, None)
+                else:
+                    e[k] = v
         p = subprocess.Popen([binary, inp, outp] + list(extra_args), stdout=subprocess.DEVNULL, stderr=subprocess.PIPE, env=e)
         procs.append((p, outp, len(part), inp))
     outs = []
